@@ -1,4 +1,4 @@
-#!/bin/sh
+#!/bin/bash
 # Run a bounded stand-in: ./run.sh <package dir> [go test args]
 # Bounded checks never count as proof; they print one line
 #   BOUNDED name=<n> cases=<k> failures=<f> [replay=<path>]
@@ -6,4 +6,7 @@ cd "$(dirname "$0")"
 export GOFLAGS=-mod=mod GOPROXY=off GOSUMDB=off GOTOOLCHAIN=local
 cp /repo/go.sum go.sum 2>/dev/null
 pkg="$1"; shift
-exec go test -vet=off -count=1 -timeout 20m "./$pkg" "$@" -v 2>&1 | grep -E "^(BOUNDED|KNOWN-FINDING|--- FAIL|FAIL|ok|panic|\s+.*_test.go)" 
+out=$(go test -vet=off -count=1 -timeout 20m "./$pkg" "$@" -v 2>&1)
+rc=$?
+echo "$out" | grep -E "^(BOUNDED|KNOWN-FINDING|--- FAIL|FAIL|ok|panic|\s+.*_test.go)"
+exit $rc
